@@ -32,9 +32,12 @@ def run_one(m, tier, baseline, seed):
         repo = os.path.join(d, "repo")
         f = os.path.join(repo, path)
         src = open(f).read()
-        if src.count(old) != 1:
-            return name, {"error": f"pattern matches {src.count(old)}x"}
-        open(f, "w").write(src.replace(old, new))
+        edits = old if isinstance(old, list) else [(old, new)]
+        for o, n in edits:
+            if src.count(o) != 1:
+                return name, {"error": f"pattern matches {src.count(o)}x"}
+            src = src.replace(o, n)
+        open(f, "w").write(src)
         res = {"props": {}}
         if baseline:
             env = dict(os.environ, NV_REPO=repo)
